@@ -4,8 +4,8 @@ use super::*;
 use core::sync::atomic::{AtomicUsize, Ordering as AOrd};
 static NCELLS: AtomicUsize = AtomicUsize::new(0);
 static NVERTS: AtomicUsize = AtomicUsize::new(0);
-fn stub_ncells<T, U, V, const D: usize>(_t: &Tds<T, U, V, D>) -> usize where U: DataType, V: DataType { NCELLS.load(AOrd::Relaxed) }
-fn stub_nverts<T, U, V, const D: usize>(_t: &Tds<T, U, V, D>) -> usize where U: DataType, V: DataType { NVERTS.load(AOrd::Relaxed) }
+fn stub_ncells<T, U, V, const D: usize>(_t: &Tds<T, U, V, D>) -> usize where U: DataType, V: DataType { let n: usize = kani::any(); NCELLS.store(n, AOrd::Relaxed); n }
+fn stub_nverts<T, U, V, const D: usize>(_t: &Tds<T, U, V, D>) -> usize where U: DataType, V: DataType { let n: usize = kani::any(); kani::assume(n < usize::MAX); NVERTS.store(n, AOrd::Relaxed); n }
 
 fn any_repair_policy() -> DelaunayRepairPolicy {
     match kani::any::<u8>() % 3 {
@@ -40,11 +40,12 @@ macro_rules! snapshot_taken {
             dt.insertion_state.delaunay_repair_policy = rp;
             dt.insertion_state.delaunay_check_policy = cp;
             dt.insertion_state.delaunay_repair_insertion_count = count;
-            let (nc, nv): (usize, usize) = (kani::any(), kani::any());
-            kani::assume(nv < usize::MAX);
-            NCELLS.store(nc, AOrd::Relaxed);
-            NVERTS.store(nv, AOrd::Relaxed);
+            // the stubs choose the counts (fresh nondeterministic values) and record them; if a count is
+            // never asked for, the recorded default applies: no cells / no vertices
+            NCELLS.store(0, AOrd::Relaxed);
+            NVERTS.store(0, AOrd::Relaxed);
             let snapshot_taken = dt.$slice();
+            let (nc, nv) = (NCELLS.load(AOrd::Relaxed), NVERTS.load(AOrd::Relaxed));
             let next = count + 1;
             let cells_after = nc > 0 || nv + 1 > D;
             if cells_after && (rp.should_repair(next) || cp.should_check(next)) {
